@@ -19,11 +19,16 @@ dtypes and scalars.  Histories: everything a call returns is overwritten by the 
 metadata / arguments (a result is the caller's own copy), the same metadata object serves all calls, a table is read again
 after the others, readers of both sort orders are alive together, a parent header is looked at again after its children were
 split off and written into.
+Robustness (exit 2 is not a detection): what the real code returns is only ever read through `project` / `_ints` / `_pair` / `_get` /
+`_head` (total functions): a result that is not a mapping of equally long vectors of real numbers is the empty table [] or has BAD
+entries (no clause holds on them); exceptions (SystemExit included) escaping a call are the verdict geom:raised.
 """
+import collections.abc
 import copy
 import itertools
 import json
 import logging
+import numbers
 import random
 import re
 from concurrent.futures import ProcessPoolExecutor
@@ -42,37 +47,112 @@ TRACE = ("trace/GeometryTrace.tla", "trace/GeometryTrace.cfg")
 
 # ------------------------------------------------------------------------------------------------
 # projection of what the real code returns onto the observables of the specification
+# Nothing the real code hands back may stop the harness: whatever is not what the property promises (None, not a mapping, an
+# attribute missing, another shape, NaN / inf, a fraction, a complex number, a string, an object, a number beyond TLC's integers)
+# is projected onto an observation no property-layer clause holds on (BAD entries, or no table at all: []).
+LIBEXC = (Exception, SystemExit)      # what a call of the real code may end with instead of returning
+
+
+def _col(a):
+    """a returned per-site vector as float64 with NaN where an entry is not a real number; None if it is not a vector"""
+    try:
+        a = np.asarray(a)
+    except Exception:
+        return None
+    if a.ndim != 1:
+        return None
+    k = a.dtype.kind
+    if k in "biuf":
+        return a.astype(np.float64)
+    if k == "c":
+        r = a.real.astype(np.float64)
+        r[a.imag != 0] = np.nan
+        return r
+    if k == "O":
+        def num(v):
+            if isinstance(v, numbers.Complex) and not isinstance(v, numbers.Real):
+                return float(v.real) if v.imag == 0 else np.nan
+            try:
+                return float(v) if isinstance(v, (numbers.Real, np.bool_)) else np.nan
+            except Exception:
+                return np.nan
+        return np.array([num(v) for v in a], dtype=np.float64)
+    return np.full(a.shape, np.nan)          # strings, dates, records: not numbers
+
+
 def _ints(a):
-    a = np.asarray(a, dtype=np.float64).reshape(-1)
-    r = np.rint(a)
-    ok = np.isfinite(a) & (a == r) & (np.abs(r) < 2 ** 30)
+    a = _col(a)
+    if a is None:
+        return []
+    with np.errstate(all="ignore"):
+        r = np.rint(a)
+        ok = np.isfinite(a) & (a == r) & (np.abs(r) < 2 ** 30)
     return [int(v) if o else BAD for v, o in zip(np.where(ok, r, 0), ok)]
 
 
 def _shift_num(a, gen):
     """sample_shift -> numerator over 13 / 16; exact: the spec says the delay *is* k/cycles"""
-    a = np.asarray(a, dtype=np.float64).reshape(-1)
+    a = _col(a)
+    if a is None:
+        return []
     c = CYCLES[gen]
-    k = np.rint(a * c)
-    ok = np.isfinite(a) & (k / c == a) & (np.abs(k) < 2 ** 30)
+    with np.errstate(all="ignore"):
+        k = np.rint(a * c)
+        ok = np.isfinite(a) & (k / c == a) & (np.abs(k) < 2 ** 30)
     return [int(v) if o else BAD for v, o in zip(np.where(ok, k, 0), ok)]
 
 
 def project(th, gen, need_flag=True):
-    """dict of arrays -> rows <<shank,row,col,x,y,adc,shift,ind,flag>>; [] if the dict is not a table"""
+    """dict of arrays -> rows <<shank,row,col,x,y,adc,shift,ind,flag>>; [] if what was returned is not a table (not a mapping, an
+    attribute missing, an attribute that is not a vector, vectors of different lengths).  Total: never raises"""
+    if not isinstance(th, collections.abc.Mapping):
+        return []
     keys = ["shank", "row", "col", "x", "y", "adc", "sample_shift", "ind"]
-    need_flag = need_flag and th is not None and "flag" in th      # the draw flag is not one of the property's attributes
-    keys += ["flag"] if need_flag else []
-    if th is None or any(k not in th for k in keys):
+    try:
+        need_flag = need_flag and "flag" in th      # the draw flag is not one of the property's attributes
+        keys += ["flag"] if need_flag else []
+        if any(k not in th for k in keys):
+            return []
+        vals = {k: th[k] for k in keys}
+    except Exception:       # a mapping that cannot be asked
         return []
-    n = {np.asarray(th[k]).size for k in keys}
-    if len(n) != 1:
+    # an attribute that is not a vector reads as [] (as an empty one does): no table unless all have one length
+    cols = [_ints(vals[k]) if k != "sample_shift" else _shift_num(vals[k], gen) for k in keys]
+    if len({len(c) for c in cols}) != 1:
         return []
-    cols = [_ints(th[k]) for k in ["shank", "row", "col", "x", "y", "adc"]]
-    cols.append(_shift_num(th["sample_shift"], gen))
-    cols.append(_ints(th["ind"]))
-    cols.append(_ints(th["flag"]) if need_flag else [1] * n.pop())
+    if not need_flag:
+        cols.append([1] * len(cols[0]))
     return [list(r) for r in zip(*cols)]
+
+
+def _pair(ret):
+    """the (table, index) pair of geometry_from_meta(return_index=True) / adc_shifts; (None, None) if it is not a pair"""
+    if isinstance(ret, (tuple, list)) and len(ret) == 2:
+        return ret[0], ret[1]
+    return None, None
+
+
+def _keys(th):
+    try:
+        return set(th) if isinstance(th, collections.abc.Mapping) else set()
+    except Exception:
+        return set()
+
+
+def _get(d, k):
+    """d[k] of a returned mapping; None if it has none"""
+    try:
+        return d[k] if isinstance(d, collections.abc.Mapping) and k in d else None
+    except Exception:
+        return None
+
+
+def _head(a, m):
+    """a[:m] of a returned vector; None if it cannot be had"""
+    try:
+        return a[:m]
+    except Exception:
+        return None
 
 
 def parse_entries(text):
@@ -152,6 +232,10 @@ def record(job):
     more = {"imDatPrb_type": job["ptype"]} if job.get("ptype") else {}     # a later line of the file wins
 
     def add(api, enc, sort, split, hdr, idx):
+        if api in ("gfm", "reader", "rg") and len(idx) != len(hdr):
+            # the index returned is not one entry per site of the table returned: no clause about it holds (the trace
+            # specification reads IDX[i] for every row of the table)
+            idx = [BAD] * len(hdr)
         rec["obs"].append({"api": api, "enc": enc, "sort": sort, "split": split, "hdr": hdr, "idx": idx})
 
     def again(api, enc, sort, split, hdr, first):
@@ -176,24 +260,25 @@ def record(job):
                 first = {}
                 if "gfm" in job["apis"]:
                     for sort in (False, True):
-                        th, idx = spikeglx.geometry_from_meta(md, return_index=True, sort=sort)
-                        hdr, ix, keys = project(th, gen), _ints(idx), set(th or ())
+                        th, idx = _pair(spikeglx.geometry_from_meta(md, return_index=True, sort=sort))
+                        hdr, ix, keys = project(th, gen), _ints(idx), _keys(th)
                         scribble(th, idx)
                         th2 = spikeglx.geometry_from_meta(md, sort=sort)   # the other return form must be the same table
-                        same = th is not None and th2 is not None and keys == set(th2) and hdr == project(th2, gen)
+                        same = th is not None and th2 is not None and keys == _keys(th2) and hdr == project(th2, gen)
                         scribble(th2)
                         first[sort] = hdr if same else []
                         add("gfm", enc, sort, split, first[sort], ix)
                     if job.get("again"):                   # the same metadata object, after everything above
-                        th3, idx3 = spikeglx.geometry_from_meta(md, True, 384, False)
+                        th3, idx3 = _pair(spikeglx.geometry_from_meta(md, True, 384, False))
                         again("gfm", enc, False, split, project(th3, gen) if _ints(idx3) == list(range(len(first[False]))) else [],
                               first[False])
                 if "reader" in job["apis"]:
                     srs = [(sort, spikeglx.Reader(f, sort=sort)) for sort in (False, True)]    # both alive at once
                     for sort, sr in srs:
-                        m = 0 if sr.geometry is None else np.asarray(sr.geometry["ind"]).size
-                        add("reader", enc, sort, split, project(sr.geometry, gen), _ints(sr.raw_channel_order[:m]))
-                        scribble(sr.geometry, sr.raw_channel_order)
+                        geo, order = getattr(sr, "geometry", None), getattr(sr, "raw_channel_order", None)
+                        m = len(_ints(_get(geo, "ind")))
+                        add("reader", enc, sort, split, project(geo, gen), _ints(_head(order, m)))
+                        scribble(geo, order)
                 if "rg" in job["apis"]:
                     th = spikeglx.read_geometry(str(f) if n % 2 else f)
                     add("rg", enc, True, split, project(th, gen), [r[7] for r in project(th, gen)])
@@ -201,25 +286,34 @@ def record(job):
         b = job.get("blk")
         if b:       # the public building blocks, called by a user on his own arrays
             ver = VSPELL[b["version"]]
+            x = y = rc = None
+
+            def has(q, *ks):
+                return all(_get(q, k) is not None for k in ks)
             if b["dtype"] == "scalar":
                 xy = [neuropixel.rc2xy(s[1], s[2], version=ver) for s in sites]
-                rc = [neuropixel.xy2rc(q["x"], q["y"], version=ver) for q in xy]
-                xy = {k: np.array([q[k] for q in xy]) for k in ("x", "y")}
-                rc = {k: np.array([q[k] for q in rc]) for k in ("row", "col")}
+                if all(has(q, "x", "y") for q in xy):
+                    rc = [neuropixel.xy2rc(q["x"], q["y"], version=ver) for q in xy]
+                    x, y = (np.array([q[k] for q in xy]) for k in ("x", "y"))
+                    rc = {k: np.array([q[k] for q in rc]) for k in ("row", "col")} if all(has(q, "row", "col") for q in rc) else None
             else:
                 row, col = (np.array([s[j] for s in sites], dtype=b["dtype"]) for j in (1, 2))
                 for turn in range(2):       # the caller's arrays are reused; what the first call returned is written into
                     xy = neuropixel.rc2xy(row, col, version=ver)
+                    if not has(xy, "x", "y"):       # nothing to hand to xy2rc
+                        x = y = rc = None
+                        break
                     x, y = xy["x"], xy["y"]
                     rc = neuropixel.xy2rc(x, y, version=ver)
                     if turn == 0:
                         scribble(xy, rc)
-                xy = {"x": x, "y": y}       # xy2rc must have left them alone
+            xy = {"x": x, "y": y}           # xy2rc must have left them alone
             for turn in range(2):
-                ss, adc = neuropixel.adc_shifts(version=ver, nc=n)
+                ss, adc = _pair(neuropixel.adc_shifts(version=ver, nc=n))
                 if turn == 0:
                     scribble(ss, adc)
-            th = {"shank": np.array([s[0] for s in sites]), "row": rc["row"], "col": rc["col"], "x": xy["x"], "y": xy["y"],
+            # an attribute that was not returned is None: not a vector, no table
+            th = {"shank": np.array([s[0] for s in sites]), "row": _get(rc, "row"), "col": _get(rc, "col"), "x": xy["x"], "y": xy["y"],
                   "adc": adc, "sample_shift": ss, "ind": np.arange(n), "flag": np.array(flags or [1] * n)}
             add("blk", "shank", False, -1, project(th, gen), [])
         if rec["dense"]:
@@ -247,7 +341,7 @@ def record(job):
                 text, _ = metagen.make_meta(kind, sites3, encoding="none", extra=more or None, **mk)
                 f.write_text(text)
                 md = spikeglx.read_meta_data(f)
-                th, idx = spikeglx.geometry_from_meta(md, return_index=True)
+                th, idx = _pair(spikeglx.geometry_from_meta(md, return_index=True))
                 base = project(th, gen)
                 # which of the two canonical NP2.4 layouts a four-shank probe without a table gets is the code's choice: the
                 # observation is judged in the trace of the layout it has the sites of (in the one-shank trace if of neither)
@@ -261,8 +355,8 @@ def record(job):
                         again("dflt", "shank", False, -1, project(th, gen), base)
                         scribble(th)
                     sr = spikeglx.Reader(f)
-                    again("dflt", "shank", False, -1, project(sr.geometry, gen), base)
-                    scribble(sr.geometry)
+                    again("dflt", "shank", False, -1, project(getattr(sr, "geometry", None), gen), base)
+                    scribble(getattr(sr, "geometry", None))
                     again("dflt", "shank", False, -1, project(spikeglx.read_geometry(f), gen), base)
             if job.get("flatbin"):      # a flat binary without metadata is taken for a dense NP1 recording
                 fb = d / f"flat{job['id']}" / "raw.bin"
@@ -270,10 +364,10 @@ def record(job):
                 junk.append(fb)
                 np.zeros(384 * 3, dtype=np.int16).tofile(fb)
                 sr = spikeglx.Reader(fb, open=False)
-                add("dflt", "shank", False, -1, project(sr.geometry, gen, False), [])
+                add("dflt", "shank", False, -1, project(getattr(sr, "geometry", None), gen, False), [])
     except tlc.TLCError:
         raise
-    except Exception as e:   # the functions are total on the quantifier's domain
+    except LIBEXC as e:      # the functions are total on the quantifier's domain
         rec["exc"] = f"{type(e).__name__}: {e}"
     finally:
         for x in junk:
@@ -539,8 +633,11 @@ def replay_exported(ctx, exported):
     e["hdr"][0][3] += 16
     t = record({"kind": kind_of[e["case"]["gen"]], "sites": e["case"]["sites"], "apis": ["gfm"],
                 "splits": [e["case"]["split"]] if e["case"]["split"] >= 0 else [], "id": "st", "dir": str(ctx.scratch / "geo")})
-    o = next(o for o in t["obs"] if (o["enc"], o["sort"], o["split"]) == (e["case"]["enc"], e["case"]["sort"], e["case"]["split"]))
-    if o["hdr"] == e["hdr"]:
+    o = next((o for o in t["obs"] if (o["enc"], o["sort"], o["split"]) == (e["case"]["enc"], e["case"]["sort"], e["case"]["split"])), None)
+    if o is None:           # the real code raised on this case: it is among `differ` and was judged above
+        if not (ctx.violations or ctx.known_hits):
+            raise tlc.TLCError(f"export self-test: the case could not be recorded ({t['exc']}) although no exported case differs")
+    elif o["hdr"] == e["hdr"]:
         raise tlc.TLCError("export self-test: a perturbed expectation was not noticed")
 
 
